@@ -87,7 +87,7 @@ def _build(ctx, name, harness_c, repo_srcs, cpu=None, extra=(), ldflags=(), sani
     return exe, err
 
 
-def _run_stream(cmd, cases, tmp, tag, env=None, timeout=None):
+def _run_stream(cmd, cases, tmp, tag, env=None, timeout=None, **kw):
     if len(cmd) >= 2 and cmd[0] == vlib.PMODEL and cmd[1].startswith("@exe:"):
         exe = cmd[1][5:]
         if not os.path.exists(exe) and _CTX[0] is not None:          # e.g. --replay: build the reference now
@@ -101,7 +101,7 @@ def _run_stream(cmd, cases, tmp, tag, env=None, timeout=None):
         # the reference build answers `path`/`force` with the paths expected of the build under test
         env["HCPU_ECHO_PATHS"] = " ".join(cmd[2:])
         cmd = [exe]
-    return _orig_run_stream(cmd, cases, tmp, tag, env=env, timeout=timeout)
+    return _orig_run_stream(cmd, cases, tmp, tag, env=env, timeout=timeout, **kw)
 
 
 vlib.build_harness = _build
